@@ -246,15 +246,25 @@ def subToDesc (s : SubSeq) : Except Err J := do
     pure (toString pos, J.obj [("channels", ← e.toDesc), ("sequencing", sq)]))
   pure (J.obj (fields ++ [("awgspecs", awgspecsJ s.awgspecs)]))
 
+/-- the sequencing entry of a position as the description shows it -/
+def seqnJ (s : Sequence) (pos : Int) : J :=
+  match Dict.get? s.sequencing pos with
+  | some q => seqSetJ q
+  | none => J.str "Not set"
+
+/-- one position of `Sequence.description` -/
+def posField (s : Sequence) (pe : Int × Entry) : Except Err (String × J) :=
+  match (match pe.2 with
+         | .el e => e.toDesc
+         | .sub sub => subToDesc sub) with
+  | .error er => .error er
+  | .ok ch => .ok (toString pe.1, J.obj [("channels", ch), ("sequencing", seqnJ s pe.1)])
+
 /-- `Sequence.description` -/
-def toDesc (s : Sequence) : Except Err J := do
-  let fields ← s.data.mapM (fun (pos, en) => do
-    let sq := match Dict.get? s.sequencing pos with | some q => seqSetJ q | none => J.str "Not set"
-    let ch ← match en with
-      | .el e => e.toDesc
-      | .sub sub => subToDesc sub
-    pure (toString pos, J.obj [("channels", ch), ("sequencing", sq)]))
-  pure (J.obj (fields ++ [("awgspecs", awgspecsJ s.awgspecs)]))
+def toDesc (s : Sequence) : Except Err J :=
+  match s.data.mapM (posField s) with
+  | .error er => .error er
+  | .ok fields => .ok (J.obj (fields ++ [("awgspecs", awgspecsJ s.awgspecs)]))
 
 def specOfJ : J → Spec
   | .obj l =>
@@ -264,37 +274,69 @@ def specOfJ : J → Spec
     | _, _ => .val (.opq 0)
   | j => .val (J.toVal j)
 
+/-- one channel of one position: the blueprint is read back at the sequence's sample rate, flags
+    are restored, and the channel's amplitude and offset are carried over from the AWG settings -/
+def chanStep (specs : List (String × J)) (sr : Val) (es : Element × Sequence) (ckcd : String × J) :
+    Except Err (Element × Sequence) :=
+  match Element.chanOfDesc es.1 ckcd.1 ckcd.2 (some sr) with
+  | .error er => .error er
+  | .ok e' =>
+    match Element.parseChan ckcd.1 with
+    | .error er => .error er
+    | .ok ch =>
+      match specs.lookup (keyOf ch "amplitude") with
+      | none => .error .key
+      | some a =>
+        match specs.lookup (keyOf ch "offset") with
+        | none => .error .key
+        | some o => .ok (e', (es.2.setChannelAmplitude ch (J.toVal a)).setChannelOffset ch (J.toVal o))
+
+/-- the five sequencing values of one position -/
+def seqSetOfJ (sq : List (String × J)) : Except Err SeqSet :=
+  match (sq.lookup "Wait trigger").bind J.toInt?, (sq.lookup "Repeat").bind J.toInt?, (sq.lookup "jump_input").bind J.toInt?,
+        (sq.lookup "jump_target").bind J.toInt?, (sq.lookup "Go to").bind J.toInt? with
+  | some w, some n, some ji, some jt, some g => .ok ⟨w, n, ji, jt, g⟩
+  | _, _, _, _, _ => .error .key
+
+/-- one position: build the element, add it, set its sequencing -/
+def posStep (specs : List (String × J)) (sr : Val) (s : Sequence) (kd : String × J) : Except Err Sequence :=
+  match kd.2.get? "channels" with
+  | some (.obj chd) =>
+    match chd.foldlM (chanStep specs sr) (({} : Element), s) with
+    | .error er => .error er
+    | .ok es =>
+      match kd.1.toInt? with
+      | none => .error .value
+      | some pos =>
+        match (es.2.addElement pos es.1).err with
+        | some er => .error er
+        | none =>
+          match kd.2.get? "sequencing" with
+          | some (.obj sq) =>
+            match seqSetOfJ sq with
+            | .error er => .error er
+            | .ok q => .ok { (es.2.addElement pos es.1).st with sequencing := Dict.upsert (es.2.addElement pos es.1).st.sequencing pos q }
+          | _ => .error .type
+  | _ => .error .key
+
+/-- the remaining AWG settings (delays, filter compensations): `setdefault` -/
+def restSpecs (s : Sequence) (specs : List (String × J)) : Sequence :=
+  specs.foldl (fun s kv => if Dict.has s.awgspecs kv.1 then s else s.setSpec kv.1 (specOfJ kv.2)) s
+
 /-- `Sequence.sequence_from_description` -/
-def ofDesc (j : J) : Except Err Sequence := do
-  let fields ← match j with | .obj l => pure l | _ => throw Err.attr
-  let specs ← match j.get? "awgspecs" with | some (.obj l) => pure l | _ => throw Err.key
-  let sr ← match specs.lookup "SR" with | some v => pure (J.toVal v) | none => throw Err.key
-  let mut s : Sequence := {}
-  for (k, d) in fields.dropLast do
-    let chd ← match d.get? "channels" with | some (.obj l) => pure l | _ => throw Err.key
-    let mut e : Element := {}
-    for (ck, cd) in chd do
-      e ← Element.chanOfDesc e ck cd (some sr)
-      let ch ← Element.parseChan ck
-      let amp ← match specs.lookup (keyOf ch "amplitude") with | some v => pure (J.toVal v) | none => throw Err.key
-      s := s.setChannelAmplitude ch amp
-      let off ← match specs.lookup (keyOf ch "offset") with | some v => pure (J.toVal v) | none => throw Err.key
-      s := s.setChannelOffset ch off
-    let pos ← match k.toInt? with | some n => pure n | none => throw Err.value
-    let r := s.addElement pos e
-    match r.err with
-    | some er => throw er
-    | none => s := r.st
-    let sq ← match d.get? "sequencing" with | some (.obj l) => pure l | _ => throw Err.type
-    let geti (key : String) : Except Err Int :=
-      match (sq.lookup key).bind J.toInt? with | some n => pure n | none => throw Err.key
-    let q : SeqSet := ⟨← geti "Wait trigger", ← geti "Repeat", ← geti "jump_input", ← geti "jump_target", ← geti "Go to"⟩
-    s := { s with sequencing := Dict.upsert s.sequencing pos q }
-  -- the remaining AWG settings (delays, filter compensations)
-  for (k, v) in specs do
-    if !(Dict.has s.awgspecs k) then
-      s := s.setSpec k (specOfJ v)
-  pure (s.setSR sr)
+def ofDesc (j : J) : Except Err Sequence :=
+  match j with
+  | .obj fields =>
+    match j.get? "awgspecs" with
+    | some (.obj specs) =>
+      match specs.lookup "SR" with
+      | none => .error .key
+      | some srj =>
+        match fields.dropLast.foldlM (posStep specs (J.toVal srj)) ({} : Sequence) with
+        | .error er => .error er
+        | .ok s => .ok ((restSpecs s specs).setSR (J.toVal srj))
+    | _ => .error .key
+  | _ => .error .attr
 
 end Sequence
 end BB
